@@ -565,3 +565,49 @@ def gen_multi_program(rng):
     p.tasks[1] = ('R', 0, 0, ('D',))
     p.exact_only = False
     return p
+
+
+def gen_sibling_program(rng):
+    """Directed family for C05: a top task requires several sibling chains (generators are reached TRANSITIVELY, at
+    depth >= 2, so the hidden-dependency queries really walk the graph and leave work on their stack), reads the generated
+    resources, and a separate task then reads or overwrites one generated resource without requiring its generator."""
+    p = Prog(); p.kind = 'inject'; p.exact_only = True
+    p.sources = [0, 1]
+    k = rng.randint(2, 4)                      # sibling chains
+    depth = [rng.randint(1, 3) for _ in range(k)]
+    tid = 1
+    chains = []                                # per chain: list of task ids, last = generator
+    for i in range(k):
+        ids = list(range(tid, tid + depth[i] + 1)); tid += depth[i] + 1
+        chains.append(ids)
+    p.generated = {10 + i: (chains[i][-1], 0) for i in range(k)}
+    for i, ids in enumerate(chains):
+        for a, b in zip(ids, ids[1:]):
+            p.tasks[a] = ('Q', b, rng.choice([0, 2]), ('T', ('k', rng.randint(0, 9))))
+        p.tasks[ids[-1]] = ('R', rng.choice(p.sources), 0, ('W', 10 + i, 0, ('a',), ('T', ('k', i))))
+    order = list(range(k)); rng.shuffle(order)
+    readers = [i for i in order if rng.random() < 0.8] or [order[0]]
+    body = ('T', ('a',))
+    for i in reversed(readers):
+        body = ('R', 10 + i, 0, body)
+    for i in reversed(order):
+        body = ('Q', chains[i][0], rng.choice([0, 2]), body)
+    p.tasks[0] = body
+    # the violator: reads (or overwrites) a generated resource without requiring anything that reaches its generator
+    victim = rng.choice(range(k))
+    x = tid
+    if rng.random() < 0.7:
+        p.tasks[x] = ('R', 10 + victim, 0, ('T', ('a',)))
+    else:
+        p.tasks[x] = ('W', 10 + victim, 0, ('k', 99), ('D',))
+    # optionally the violator first requires an unrelated chain head (more leftovers on the search stack)
+    others = [i for i in range(k) if i != victim]
+    if others and rng.random() < 0.5:
+        p.tasks[x] = ('Q', chains[rng.choice(others)][0], 0, p.tasks[x])
+    steps = [['E', '0', str(rng.randint(0, 3))], ['E', '1', str(rng.randint(0, 3))]]
+    first = [['S', '1', 'q', '0'], ['S', '1', 'q', str(x)]]
+    if rng.random() < 0.5: first.reverse()
+    steps += first
+    if rng.random() < 0.5:
+        steps += [['E', str(rng.choice(p.sources)), str(rng.randint(4, 6))], ['S', '2', 'q', '0', 'q', str(x)]]
+    return p, steps
